@@ -72,6 +72,21 @@ def fields(tag, body, depth=0):
     return ('raw', tag, body)
 
 
+def _copy_law(ctx, p, out, where):
+    """a copy of a packet object is a packet with the same field values: it serialises to the same octets (and so does a copy of the copy)"""
+    import copy
+    try:
+        c1 = copy.copy(p)
+        c2 = copy.copy(c1)
+        o1, o2 = bytes(c1.__bytearray__()), bytes(c2.__bytearray__())
+    except Exception as e:
+        ctx.fail('copy-of-packet-cannot-be-serialised', {'where': where, 'err': repr(e)[:200], 'packet': hx(out)[:200]})
+        return
+    ctx.count('packet_copies_compared')
+    if o1 != out or o2 != out:
+        ctx.fail('copy-of-packet-serialises-differently', {'where': where, 'packet': hx(out)[:300], 'copy': hx(o1)[:300], 'lens': [len(out), len(o1), len(o2)]})
+
+
 def roundtrip_own(ctx, pgpy, raw, where):
     """law for PGPy's own output"""
     from pgpy.packet import Packet
@@ -93,6 +108,7 @@ def roundtrip_own(ctx, pgpy, raw, where):
             ctx.fail('own-packet-consumption', {'where': where, 'left': hx(buf)[:60], 'expected_left': hx(t), 'packet': hx(raw)[:300]})
         if out != raw:
             ctx.fail('own-packet-reserialises-differently', {'where': where, 'packet': hx(raw)[:300], 'out': hx(out)[:300], 'lens': [len(raw), len(out)]})
+        _copy_law(ctx, p, out, where)
     if len(raw) > 4:
         ctx.nontrivial(hx(__import__('hashlib').sha1(raw).digest()[:8]))
 
@@ -417,6 +433,7 @@ def _foreign(ctx, d, pgpy):
             continue
         if bytes(buf2) != t2 or out2 != out:
             ctx.fail('reserialised-foreign-packet-not-a-fixed-point', dict(where, out=hx(out)[:200], out2=hx(out2)[:200], left=hx(buf2)[:20]))
+        _copy_law(ctx, p2, out, where)
         if out != raw:
             ctx.count('foreign_normalised')
         ctx.nontrivial(hx(__import__('hashlib').sha1(raw).digest()[:8]))
